@@ -177,7 +177,7 @@ where
     let (tx, rx) = std::sync::mpsc::channel::<T>();
     let h = std::thread::Builder::new()
         .name(format!("sim-{:x}", seed))
-        .stack_size(8 << 20)
+        .stack_size(4 << 20)
         .spawn(move || {
             let tx = tx;
             SIM_ACTIVE.with(|a| a.set(true));
